@@ -1,19 +1,18 @@
-SPECIFICATION CheckedSpec
+SPECIFICATION ASpec
 CONSTANTS
   NH = 2
-  MaxBlocks = 2
+  MaxBlocks = 1
   MaxSteps = 5
   Bases <- Base1
   Layouts <- LaySmall
-  Counts <- SmallCounts
-  Lens <- SmallLens
+  Counts <- HostCounts
+  Lens <- HostLens
   NilMiner = TRUE
   Kinds <- AllKinds
   InitPools = "empty"
   MalClasses <- MalNone
   GuardFit = TRUE
   Huge = 99
-  EmitOn = FALSE
-VIEW view
-INVARIANTS TypeOK Alive PostedComplete ExactRebuild
+  EmitOn = TRUE
+INVARIANT Export
 CHECK_DEADLOCK FALSE
